@@ -89,7 +89,8 @@ def klass(name, **kw):
 
 
 class LoopInv:
-    def __init__(self, key, loop, inv, over=None, var="k", props=()):
+    def __init__(self, key, loop, inv, over=None, var="k", props=(), locals=None):
+        self.locals = dict(locals or {})   # local name -> element type of a list that is EMPTY at loop entry
         self.key = key
         self.loop = loop  # 1-based ordinal of the loop in the function (pre-order)
         self.inv = list(inv)
